@@ -63,6 +63,27 @@ def shape_causes(shapes, panicked):
     return [s for s in shapes if "map" in s]
 
 
+def dup_spoils_datetime(doc):
+    """a member name written twice, once with a date-time and once with a string that is not one.  encoding/json
+    decodes EVERY duplicate of a map[string]time.Time entry (the reference validators and the model keep the
+    last one), so the discarded duplicate alone fails the decode: documents with duplicate member names are outside
+    the property's domain, and this is the one place where a duplicate changes a verdict"""
+    if isinstance(doc, srcgen.DupObj):
+        by = {}
+        for k, v in doc.pairs:
+            by.setdefault(k, []).append(v)
+        for vs in by.values():
+            strs = [v for v in vs if isinstance(v, str)]
+            if len(vs) > 1 and any(srcgen._STRESS_TS.match(v) for v in strs) and any(not srcgen._STRESS_TS.match(v) for v in strs):
+                return True
+        return any(dup_spoils_datetime(v) for _, v in doc.pairs)
+    if isinstance(doc, dict):
+        return any(dup_spoils_datetime(v) for v in doc.values())
+    if isinstance(doc, list):
+        return any(dup_spoils_datetime(v) for v in doc)
+    return False
+
+
 def has_dup(doc):
     if isinstance(doc, srcgen.DupObj):
         return True
@@ -291,6 +312,8 @@ def run(ctx, verdict, replay=None, model_ok=True):
                {"predicate": "pf_val_spurious"})
     for i in by_size(ev["PF_OVERREJECT"]):
         j = camp.jobs[i]
+        if any(dup_spoils_datetime(d) for d in j["pydocs"]):
+            continue        # assumption: documents without duplicate member names (see dup_spoils_datetime)
         shapes = code_shapes(batch, j["sid"])
         panicked = any(x["strict"] == "panic" for x in camp.results[i]["res"])
         causes = shape_causes(shapes, panicked)
